@@ -102,6 +102,12 @@ type extension struct {
 	extensions.NoExtensionImpl
 }
 
+// ForFeed returns an extension with the same options and fresh elevator alert deduplication state.
+// The alerts collected for deduplication belong to one feed message only; see [extensions.PerFeedExtension].
+func (e extension) ForFeed() extensions.Extension {
+	return Extension(e.opts)
+}
+
 var priortyToEffect = map[gtfsrt.MercuryEntitySelector_Priority]gtfsrt.Alert_Effect{
 	gtfsrt.MercuryEntitySelector_PRIORITY_NO_SCHEDULED_SERVICE:     gtfsrt.Alert_NO_SERVICE,
 	gtfsrt.MercuryEntitySelector_PRIORITY_NO_MIDDAY_SERVICE:        gtfsrt.Alert_REDUCED_SERVICE,
